@@ -275,3 +275,38 @@ func VerifH_C18_PipelineAbandonedThenClose() {
 		verifrt.Assert(c.closed, "no upstream connection stays open after Close, also one whose last exchange was abandoned")
 	}
 }
+
+// VerifH_C18_PeerClosedIdleConnection: "leaves no upstream connection of the proxy open". A pooled one-at-a-time
+// connection is closed BY THE SERVER while it sits idle (FIN; our side is still open). The next exchange succeeds (on a
+// fresh connection, whatever way the dead one is noticed: by the failed exchange, or by probing the socket — the fake
+// exposes a descriptor like a real TCP connection does). Then the transport is closed: every connection that was ever
+// dialled, including the one the server had abandoned, is closed on our side too.
+func VerifH_C18_PeerClosedIdleConnection() {
+	verifrt.Unwind(120)
+	verifrt.SchedBound(1)
+	verifrt.NoTimers()
+	verifrt.CtxNoExpiry = true
+	var conns []*vNetConn
+	t := NewReuseConnTransport(ReuseConnOpts{DialContext: func(ctx context.Context) (net.Conn, error) {
+		c := newVNetConn()
+		conns = append(conns, c)
+		go vServePlain(c)
+		return c, nil
+	}})
+	r1, err1 := t.ExchangeContext(context.Background(), vQuery12(1, 1))
+	verifrt.Assert(err1 == nil && r1 != nil && r1.Header.RCode == 1, "first exchange answered")
+	verifrt.Quiesce()
+	verifrt.Assert(len(conns) == 1 && len(t.idleConns) == 1, "its connection is pooled")
+	conns[0].PeerClose() // the server goes away while the connection is idle
+	r2, err2 := t.ExchangeContext(context.Background(), vQuery12(2, 2))
+	verifrt.Reach("second-returned")
+	verifrt.Assert(err2 == nil && r2 != nil && r2.Header.ID == 2 && r2.Header.RCode == 2, "a healthy server is reachable: the exchange succeeds on a fresh connection")
+	verifrt.Quiesce()
+	verifrt.Assert(t.Close() == nil, "close returns")
+	verifrt.Quiesce()
+	verifrt.Reach("closed")
+	verifrt.Assert(len(conns) == 2, "exactly one replacement connection was dialled")
+	for _, c := range conns {
+		verifrt.Assert(c.closed, "no upstream connection stays open after Close, also one the server had closed while it was idle")
+	}
+}
